@@ -153,7 +153,9 @@ def _reinterpreting_cast(ctype_txt):
     """a cast that does not convert a value: to a pointer type or to a Python object type.  Everything else (C number types,
     ctypedef'd names, fused types, `signed int`, `long int`, ...) may truncate, wrap or change sign and stays in the tree"""
     t = " ".join(ctype_txt.split())
-    return t.endswith("*") or t in _OBJECT_CAST_TYPES or t.endswith("?")
+    if t.endswith("?"):
+        t = t[:-1].strip()      # `<T?>x` is a checked cast: for an object type a type test, for a C number type the same conversion as `<T>x`
+    return t.endswith("*") or t in _OBJECT_CAST_TYPES
 
 
 def _operand_end(sig, k, path):
